@@ -123,6 +123,19 @@ def gen_case(rng):
             comps.append(dict(name=nm, kind="derived", tree=tree, qual=qual, fill=rng.choice([None, None, None, 0, 0, -1])))
         avail.append(nm)
     rows = [[i + 1, rng.choice([None, 0, 1, 2, 5, -3]), rng.choice([None, 0, 1, 2, 4]), rng.choice(["a", "b", None]), rng.choice([1, 2, 3])] for i in range(rng.choice([0, 3, 6, 10]))]
+    if rng.random() < 0.3:
+        # a group whose additive components are exactly ZERO (not NULL): ratios over it are 0, ratios DIVIDING by such a ratio have a zero denominator
+        for r in rows:
+            if r[3] == "b":
+                r[1] = 0
+                r[2] = rng.choice([0, 0, 3])
+        sums = [l["name"] for l in leaves if l.get("agg") == "sum" and not l.get("filt")]
+        free = [n for n in NAMES if n not in names]
+        if sums and len(free) >= 2:
+            inner, outer = free[0], free[1]
+            comps.append(dict(name=inner, kind="ratio", num=sums[0], den=rng.choice(avail), qual=False, fill=None))
+            comps.append(dict(name=outer, kind="ratio", num=rng.choice(avail), den=inner, qual=rng.random() < 0.3, fill=rng.choice([None, -1])))
+            avail += [inner, outer]
     joined = rng.random() < 0.3
     graph_level = None
     if rng.random() < 0.3:
